@@ -20,7 +20,10 @@ RULE = ('test recording = n x c matrix with entry (r, j) = r*c + j in the sample
         'statement (judged against the model with exception classes only, code 1): every composition of n <= 3 / 4 x every integer in [-2n-1, 2n+1] x '
         'every slice with bounds in {None} u [-n-2, n+2] (steps None, and 0 / 1 / 2 / -1 in rotation) x every index list of <= 2 entries over [-1, n] '
         '(unordered, repeated, empty), column selectors NumPy rejects, empty recordings, several .cbin paths (first file only), constructor arguments '
-        '(n_channels 0, empty file, offset beyond the file, sample_rate 0). Non-trivial = the recording has >= 2 parts or a column selector is present; '
+        '(n_channels 0, empty file, offset beyond the file, sample_rate 0). Round 2: for c <= 4 channels EVERY permutation of the channels '
+        'and EVERY index list of <= 3 channels (repeats, any order; 164 selectors) as list and as ndarray, some also counted from the end, the row '
+        'index / layout taken in rotation over every item of n <= 4; the random stream also on 5-8 channels with permutations of all channels / '
+        'of a run of channels and index lists with repeats. Non-trivial = the recording has >= 2 parts or a column selector is present; '
         'distinct = distinct abstract input + configuration.')
 EXHAUSTIVE = {'quick': True, 'thorough': True}
 CLAUSES = {
@@ -309,6 +312,15 @@ CORPUS = [
     # FlatEphysReader called directly (assert all(p.exists()))
     _ctor([-1, 12], 2), _ctor([12, -1], 2), _ctor([-1], 2), _ctor([], 2), _ctor([12, -1], 2, direct=True), _ctor([-1], 2, direct=True),
     _ctor([12, 12], 2, direct=True),
+    # ---- round-2 seed C01-m4: index lists over a gap-free span that start at its minimum and end at its maximum but are
+    # not the ascending run (a "consecutive channels -> basic slice" shortcut returns them in ascending order)
+    _get([1, 3, 2], 4, ['slice', 1, 5, None], ['list', [0, 2, 1, 3]]),
+    _get([1, 3, 2], 4, ['list', [0, 3, 5]], ['list', [0, 2, 1, 3]], **{'as': 'array'}),
+    _get([1, 3, 2], 5, ['int', 4], ['list', [1, 3, 2, 4]]), _get([5], 5, ['slice', None, -1, None], ['list', [1, 3, 2, 4]], backend='array'),
+    _get([1, 3, 2], 3, ['slice', 2, None, None], ['list', [0, 0, 2]]), _get([2, 2], 3, ['int', -1], ['list', [0, 2, 2]], **{'as': 'array'}),
+    _get([4], 4, ['slice', 1, 3, None], ['list', [1, 1, 3]], backend='npy'),
+    _get([6], 6, ['slice', 1, 5, None], ['list', [0, 3, 1, 4, 2, 5]], backend='cbin', d=2),
+    _get([2, 3], 8, ['list', [1, 2]], ['list', [2, 5, 3, 6, 4, 7]], dtype='float32', offset=7),
     # reader[t] for tuples of 0, 3, 4 index expressions: NotImplementedError (line 229); 1 and 2 are answered
     _dispatch('tuple', 0), _dispatch('tuple', 1), _dispatch('tuple', 2), _dispatch('tuple', 3), _dispatch('tuple', 4),
     # a list of two / three .npy paths: ValueError (line 420)
@@ -337,6 +349,40 @@ def _exhaustive(nfull, nrot):
                             cases.append(_get(sizes, c, it, cols, **{'as': form}))
                         if len(sizes) == 1:
                             cases.append(_get(sizes, c, it, cols, backend='array', **{'as': form}))
+    return cases
+
+
+def col_lists_for(c):
+    """every index-list column selector of the small scope on c channels: every permutation of the c channels, and
+    every list of <= 3 channels, repeats and any order allowed (c + c^2 + c^3 lists)"""
+    out = [list(p) for p in itertools.permutations(range(c))]
+    for k in (1, 2, 3):
+        for l in itertools.product(range(c), repeat=k):
+            if list(l) not in out:
+                out.append(list(l))
+    return out
+
+
+def _col_selector_cases(cmax=4):
+    """round-2 seed C01-m4 (`arr[:, cols]` answered through a basic slice whenever cols[-1] - cols[0] == len(cols) - 1:
+    [0, 2, 1, 3] and [0, 0, 2] come back in ascending order): for c <= cmax EVERY permutation of the channels and EVERY
+    index list of <= 3 channels (repeats, any order), as list and as ndarray; the row index (every item of n = 1..4) and
+    the layout (every composition) are taken in rotation, one per selector"""
+    rows = [(sizes, it) for n in (3, 4, 2, 1) for sizes in compositions(n) for it in items_for(n)]
+    cases = []
+    k = 0
+    for c in range(1, cmax + 1):
+        for l in col_lists_for(c):
+            for form in ('list', 'array'):
+                k += 1
+                sizes, it = rows[(7 * k) % len(rows)]
+                cases.append(_get(sizes, c, it, ['list', l], **{'as': form}))
+                if k % 4 == 0:
+                    cases.append(_get([sum(sizes)], c, it, ['list', l], backend='array', **{'as': form}))
+                if k % 6 == 0:
+                    # the same channels counted from the end (NumPy: -c..-1), first entry only / all entries
+                    neg = [l[0] - c] + l[1:] if k % 12 else [x - c for x in l]
+                    cases.append(_get(sizes, c, it, ['list', neg], **{'as': form}))
     return cases
 
 
@@ -405,12 +451,30 @@ def _rand_item(rng, n, bounds):
 def _rand_cols(rng, c):
     """the five selectors of the exhaustive scope, or any other slice / index list NumPy accepts on c channels"""
     r = rng.random()
-    if r < 0.5:
+    if r < 0.35:
         return rng.choice(cols_for(c))
-    if r < 0.75:
+    if r < 0.55:
         b = [None] + list(range(-c - 1, c + 2))
         return ['slice', rng.choice(b), rng.choice(b), rng.choice([None, 1, -1, 2, -2])]
-    return ['list', [rng.randint(-c, c - 1) for _ in range(rng.randint(1, c + 1))]]
+    if r < 0.7:
+        return ['list', [rng.randint(-c, c - 1) for _ in range(rng.randint(1, c + 1))]]
+    # round 2 (C01-m4): permutations of all channels / of a run of channels (any order inside; half of them keep the run's
+    # first and last channel in place), and index lists with repeated channels
+    if r < 0.85:
+        a = rng.randint(0, c - 1) if rng.random() < 0.5 else 0
+        b = rng.randint(a, c - 1) if a or rng.random() < 0.5 else c - 1
+        run = list(range(a, b + 1))
+        if len(run) > 3 and rng.random() < 0.5:
+            mid = run[1:-1]
+            rng.shuffle(mid)
+            run = run[:1] + mid + run[-1:]
+        else:
+            rng.shuffle(run)
+        return ['list', run]
+    l = sorted(rng.randint(0, c - 1) for _ in range(rng.randint(2, c + 2)))
+    if rng.random() < 0.5:
+        rng.shuffle(l)
+    return ['list', l]
 
 
 def _random(rng, count, nmax):
@@ -422,7 +486,7 @@ def _random(rng, count, nmax):
         if rng.random() < 0.3:
             sizes[rng.randrange(k)] = 1
         n = sum(sizes)
-        c = rng.randint(1, 4)
+        c = rng.randint(1, 4) if rng.random() < 0.65 else rng.randint(5, 8)
         bounds = [0]
         for s in sizes:
             bounds.append(bounds[-1] + s)
@@ -573,6 +637,7 @@ def generate(tier, rng):
     cases += base
     cases += _attr_cases(6 if quick else 9, rng)
     cases += _config_sample(base, rng, 900 if quick else 10000)
+    cases += _col_selector_cases(4)
     cases += _random(rng, 400 if quick else 4000, 2000)
     cases += _zero_part_cases(3 if quick else 4)
     cases += _sub_cases(4 if quick else 5)
